@@ -51,6 +51,50 @@ def putBalance (b : Balance) : List (Comm × Rat) :=
 def topAmount (b : Balance) : Option Amount :=
   if Gen.topAmountSorted then (sortedAmounts b).head? else b.head?
 
+/-! ### commodity_t::compare_by_commodity on lots (commodity.cc 389-520) -/
+
+/-- An annotated commodity of one symbol: lot price (in one fixed price commodity), lot date
+    (day number), lot tag.  All three absent = the unannotated commodity.  Value-expression
+    annotations and prices in different commodities are not modelled. -/
+structure Lot where
+  sym   : String
+  price : Option Rat
+  date  : Option Int
+  tag   : Option String
+deriving DecidableEq, Repr
+
+def Lot.annotated (l : Lot) : Bool := l.price.isSome || l.date.isSome || l.tag.isSome
+
+/-- what the source returns when only the right / only the left lot has detail `x`. -/
+def presenceRet (x : String) : Int × Int :=
+  match Gen.lotPresenceReturns.find? (fun e => e.1 = x) with
+  | some e => e.2
+  | none => (0, 0)
+
+/-- one "detail" step: `none` = undecided, go on to the next detail. -/
+def cmpDetail {α : Type} (x : String) (lt : α → α → Bool) (l r : Option α) : Option Int :=
+  match l, r with
+  | none, some _ => some (presenceRet x).1
+  | some _, none => some (presenceRet x).2
+  | some a, some b => if lt a b then some (-1) else if lt b a then some 1 else none
+  | none, none => none
+
+/-- compare_by_commodity (negative: left sorts first), mirroring the order of the tests:
+    symbol, annotated or not, price, date, tag; two lots equal in everything end in the
+    `assert(false); return -1` the source calls "should never happen". -/
+def compareLots (l r : Lot) : Int :=
+  if l.sym < r.sym then -1 else if r.sym < l.sym then 1
+  else if !l.annotated && r.annotated then (presenceRet "annotation").1
+  else if l.annotated && !r.annotated then (presenceRet "annotation").2
+  else if !l.annotated && !r.annotated then 0
+  else match cmpDetail "price" (fun a b => decide (a < b)) l.price r.price with
+    | some c => c
+    | none => match cmpDetail "date" (fun a b => decide (a < b)) l.date r.date with
+      | some c => c
+      | none => match cmpDetail "tag" (fun a b => decide (a < b)) l.tag r.tag with
+        | some c => c
+        | none => -1
+
 /-- balance_t::strip_annotations (balance.cc 263-271; `scrub`, every default report format):
     each component is stripped — `strip` maps an annotated commodity (a lot) to its base
     commodity — and re-added to a fresh balance in enumeration order.  Lots of one base
